@@ -132,6 +132,9 @@ def check_exprs(exprs):
     Returns (True,runtime) if the check was successful and (False,0)
     otherwise.
     """
+    if options.args().unchecked:
+        # nothing is run, there is no output a match string could apply to
+        return True
     tmpfile = tmpfiles.get_tmp_filename()
     nodeio.write_smtlib_for_checking(tmpfile, exprs)
     return check(tmpfile)
@@ -141,6 +144,10 @@ def do_golden_runs():
     """Do the initial runs to obtain the golden run results."""
     global __GOLDEN
     global __GOLDEN_CC
+
+    if options.args().unchecked:
+        # nothing is run, there is no golden output to record or to validate
+        return
 
     logging.info('')
     if options.args().cmd_cc:
